@@ -239,5 +239,29 @@ class UnstructModel:
         return found[0]
 
 
+def is_generated(fn):
+    code = getattr(fn, "__code__", None)
+    return code is not None and code.co_filename.startswith("<cattrs generated")
+
+
+def unwrap(fn):
+    """follow functools.wraps chains down to the cattrs-generated function; returns (generated fn or None, wrapped?)"""
+    seen = 0
+    wrapped = False
+    while fn is not None and not is_generated(fn) and seen < 10:
+        fn = getattr(fn, "__wrapped__", None)
+        wrapped = True
+        seen += 1
+    return fn, wrapped
+
+
 def models(conv, cls):
-    return StructModel(cls, conv.get_structure_hook(cls)), UnstructModel(cls, conv.get_unstructure_hook(cls))
+    sh, uh = conv.get_structure_hook(cls), conv.get_unstructure_hook(cls)
+    s_inner, s_wrapped = unwrap(sh)
+    u_inner, u_wrapped = unwrap(uh)
+    if s_inner is None or u_inner is None:
+        raise GrammarError("the (un)structure function registered for %s is hand-written code around no reachable cattrs-generated function" % cls.__name__)
+    sm, um = StructModel(cls, s_inner), UnstructModel(cls, u_inner)
+    sm.wrapper = sh if s_wrapped else None
+    um.wrapper = uh if u_wrapped else None
+    return sm, um
